@@ -3,6 +3,9 @@
 # usage: build.sh [clean]
 set -e
 cd "$(dirname "$0")/coq"
+# one build at a time: concurrent ./check runs share this directory (the second one finds everything up to date)
+exec 9>.build.lock
+flock 9
 export PATH=/usr/bin:$PATH
 if [ "$1" = "clean" ]; then
   [ -f Makefile ] && make clean >/dev/null 2>&1 || true
